@@ -175,6 +175,16 @@ CLAIMS = {
   design="DESIGN.md §4 C11",
   note="NOT claimed: data-race freedom of fields touched inside internal functions/containers, the OS primitives, more than "
        "two threads or two context switches per pair of calls, wall-clock liveness. Locks are ghost depth counters."),
+ "C14": dict(
+  text="Bounded model checking (CBMC) with the failing allocation index as a solver-chosen, case-split variable: for each "
+       "scenario (ares_buf operations, array/list/skip-list/hash-table operations incl. ares_htable_expand, record building "
+       "through the public setters, ares_dns_write / ares_dns_parse of small messages, query-cache insert/fetch, search "
+       "start, ares_send_nolock, ares_open_connection, addrinfo/hostent builders, option parsing) every allocation "
+       "position fails in turn: no invalid access, failure reported or correct result, object unchanged/consistent and "
+       "destroyable, allocator ledger back to its entry value, callbacks exactly once.",
+  design="DESIGN.md §4 C14",
+  note="One failure per call; allocation counts per scenario are measured natively and BOUND-checked; whole "
+       "ares_init_options / ares_reinit / end-to-end getaddrinfo and the file readers under failure are outside the claim."),
 }
 NA = {}
 for i in range(1, 21):
